@@ -30,16 +30,17 @@ theorem sps_roundtrip (signedOffsets : Bool) (f : Nat) (tr : Trace) (h : TraceOK
       parseNalu f (sps signedOffsets) nalu = some (tr, e) ∧ e.err = false :=
   AvcSps.sps_roundtrip signedOffsets f tr h
 
-/-- **picture size, for every valid SPS**: the parser's width/height is the standard's derivation (SubWidthC /
-    SubHeightC, ChromaArrayType, CropUnitX/Y, FrameHeightInMbs) -/
-theorem dims_eq_std_sps (signedOffsets : Bool) (f : Nat) (tr : Trace) (h : TraceOK f (sps signedOffsets) tr) :
-    dims tr = stdDims tr := AvcSps.dims_eq_std_sps signedOffsets f tr h
+/-- **picture size, for every valid SPS**: the parser's width/height (Go `uint` arithmetic, wrapping) is the standard's
+    derivation (SubWidthC / SubHeightC, ChromaArrayType, CropUnitX/Y, FrameHeightInMbs) whenever the cropping rectangle
+    lies inside the coded picture, as the standard requires -/
+theorem dims_eq_std_sps (signedOffsets : Bool) (f : Nat) (tr : Trace) (h : TraceOK f (sps signedOffsets) tr)
+    (hfit : CropFits tr) : dims tr = stdDims tr := AvcSps.dims_eq_std_sps signedOffsets f tr h hfit
 
 /-- for arbitrary value assignments (not necessarily produced by the syntax) the two derivations agree unless
     separate_colour_plane_flag = 1 is combined with chroma format 1 or 2 — which the syntax excludes -/
 theorem dims_eq_std_partial (t : Trace) (hf : t.nat "frame_mbs_only_flag" ≤ 1)
-    (hsep : t.get "separate_colour_plane_flag" = 1 → chromaFormat t ≠ 1 ∧ chromaFormat t ≠ 2) :
-    dims t = stdDims t := AvcSps.dims_eq_std_partial t hf hsep
+    (hsep : t.get "separate_colour_plane_flag" = 1 → chromaFormat t ≠ 1 ∧ chromaFormat t ≠ 2)
+    (hfit : CropFits t) : dims t = stdDims t := AvcSps.dims_eq_std_partial t hf hsep hfit
 
 /-- … and the unrestricted statement is false: the witness (separate_colour_plane_flag = 1 with an inferred chroma
     format 1 — a value assignment the syntax cannot produce) -/
